@@ -667,6 +667,7 @@ def make_initial_states(c, variables, vt, kw):
             if dt not in dts:
                 dt = dts[c["init_seed"] % len(dts)]
             init = (np.array(rows, dtype=np.dtype(dt)), order)
+            kw["_init_dtype"] = dt
         if raw:
             # raw samples-like: the vartype is inferred from the values, falling back to the bqm's
             flat = [x for row in rows for x in row]
@@ -738,6 +739,7 @@ def run_bqm(c):
     init_vt = kw.pop("_init_vt", None)
     init_ls = kw.pop("_init_ls", None)
     init_rows = kw.pop("_init_rows", None)
+    init_dtype = kw.pop("_init_dtype", None)
     recs = []
     objs = []
     structs = {}
@@ -765,10 +767,15 @@ def run_bqm(c):
         ss = getattr(top, {'sample': 'sample', 'ising': 'sample_ising', 'qubo': 'sample_qubo'}[entry])(*args, **kw)
     except BinaryQuadraticModelStructureError:
         raised = 'structure'
-    except ValueError:
+    except ValueError as e:
         if c["base"] not in ('identity', 'random'):
             raise
         raised = 'ValueError'
+        if init_dtype == 'bool' and init_vt == vt and 'unsupported sample dtype' in str(e):
+            # BinaryQuadraticModel.energies explicitly rejects boolean sample arrays: bool initial states are
+            # only usable when they are converted (BINARY states for a SPIN model are cast to int8 first)
+            return {"coq": None, "py_fail": None, "nontrivial": False,
+                    "features": dict(feats, raised=raised, bool_states_rejected=True)}
     feats["raised"] = raised
     terms = []
     py_fail = None
@@ -996,7 +1003,7 @@ def run_poly(c):
     bqm_rec = None
     if c["hoc"]:
         base, bkw = make_bqm_base(c, variables, vt)
-        for k in ('initial_states', '_init_vt', '_init_ls', '_init_rows'):
+        for k in ('initial_states', '_init_vt', '_init_ls', '_init_rows', '_init_dtype'):
             bkw.pop(k, None)       # the reduced BQM has auxiliary variables the initial states do not cover
         bqm_rec = Rec(base)
         s = dimod.HigherOrderComposite(bqm_rec)
@@ -1081,7 +1088,7 @@ def run_poly(c):
                 T.idx(v)
                 if not any(v == y and type(v) is type(y) for y in exp_vars):
                     exp_vars.append(v)
-    out_terms = [f"(CPost (PPoly {hp}) {vars_term(T, exp_vars, vt)} {res_term(T, final)})"]
+    out_terms = [f"(CPostRaw {hp} {vars_term(T, exp_vars, vt)} {res_term(T, final)})"]
     outs = [r.calls[-1][1] if r.calls else None for r in recs]
     inps = [r.calls[-1][0] if r.calls else None for r in recs]
     if any(o is None for o in outs):
